@@ -3,6 +3,7 @@ from binascii import b2a_hex, a2b_hex
 
 from pymodbus.exceptions import ModbusIOException
 from pymodbus.utilities import checkLRC, computeLRC
+from pymodbus.compat import byte2int
 from pymodbus.framer import ModbusFramer, FRAME_HEADER, BYTE_ORDER
 
 
@@ -64,6 +65,7 @@ class ModbusAsciiFramer(ModbusFramer):
         """
         start = self._buffer.find(self._start)
         if start == -1:
+            self._buffer = b''  # nothing but bad data, drop it
             return False
         if start > 0:  # go ahead and skip old bad data
             self._buffer = self._buffer[start:]
@@ -72,10 +74,15 @@ class ModbusAsciiFramer(ModbusFramer):
         end = self._buffer.find(self._end)
         if end != -1:
             self._header['len'] = end
-            self._header['uid'] = int(self._buffer[1:3], 16)
-            self._header['lrc'] = int(self._buffer[end - 2:end], 16)
-            data = a2b_hex(self._buffer[start + 1:end - 2])
-            return checkLRC(data, self._header['lrc'])
+            try:
+                frame = a2b_hex(self._buffer[start + 1:end])
+            except (TypeError, ValueError):  # not (only) hex digits
+                return False
+            if len(frame) < 3:  # unit, function code and lrc at least
+                return False
+            self._header['uid'] = byte2int(frame[0])
+            self._header['lrc'] = byte2int(frame[-1])
+            return checkLRC(frame[:-1], self._header['lrc'])
         return False
 
     def advanceFrame(self):
@@ -178,7 +185,12 @@ class ModbusAsciiFramer(ModbusFramer):
                 else:
                     _logger.error("Not a valid unit id - {}, "
                                   "ignoring!!".format(self._header['uid']))
-                    self.resetFrame()
+                    # skip this frame only, later frames may be for us
+                    self.advanceFrame()
+            elif self._buffer.find(self._end) != -1:
+                # a complete but invalid frame: skip its start character
+                # and look for the next frame start behind it
+                self._buffer = self._buffer[1:]
             else:
                 break
 
